@@ -892,6 +892,13 @@ class Facts:
             out = set()
             for c in b.calls():
                 out |= self.resolve_local(c, by_path, ti)
+                # function items passed as arguments (callbacks, lazy initialisers) may be called by the callee
+                for a in c.args:
+                    for s_ in subterms(a):
+                        if isinstance(s_, tuple) and s_ and s_[0] == "fn" and s_[1]:
+                            for key in (s_[1], strip_generics(s_[1])):
+                                if key in by_path:
+                                    out.update(by_path[key])
             # closures defined in this body are considered called by it
             for c in self.closures_of(b):
                 out.add(c.key)
